@@ -137,6 +137,8 @@ const char* String::findLastOf(const char* chars) const {return String::findLast
 
 String& String::replace(const String& needle, const String& replacement)
 {
+  if(needle.isEmpty())
+    return *this;
   const char* p = data->str;
   const char* match = strstr(p, needle);
   if(!match)
